@@ -119,7 +119,10 @@ fn program_of(case: &Case) -> Vec<El> {
             let fail = vec![El::Op(0x54)];
             let nested = |c: u8| El::If { code: c, pass: vec![El::Op(0x55)], fail: Some(vec![El::Op(0x56)]) };
             let second_else = vec![El::Op(0x54), El::Op(103), El::Op(0x55)];
-            let (p, f) = match shape % 11 {
+            let (p, f) = match shape % 13 {
+                // OP_RETURN inside the taken / the skipped branch, a stray OP_ENDIF after the conditional (added below)
+                11 => (vec![El::Op(0x52), El::Op(106)], Some(vec![El::Op(0x53)])),
+                12 => (vec![El::Op(0x52)], Some(vec![El::Op(0x53), El::Op(106)])),
                 // a second OP_ELSE in the else branch, at this level and inside a nested conditional of either branch
                 6 => (pass, Some(second_else)),
                 7 => (vec![El::Op(0x51), El::If { code: 99, pass: vec![El::Op(0x55)], fail: Some(second_else) }], Some(fail)),
@@ -133,13 +136,13 @@ fn program_of(case: &Case) -> Vec<El> {
                 4 => (vec![El::Op(0x51), nested(99), El::Op(0x57)], Some(vec![El::Op(0), nested(100)])),
                 _ => (pass, Some(vec![])),
             };
-            if shape % 11 == 10 {
+            if shape % 13 == 10 {
                 let at = els.len() - 1;
                 els.insert(at, El::Op(103));
             }
             els.push(El::If { code: *code, pass: p, fail: f });
             els.push(El::Op(0x58));
-            if shape % 11 == 9 {
+            if matches!(shape % 13, 9 | 11 | 12) {
                 els.push(El::Op(104));
             }
             els.push(El::Op(108));
@@ -326,6 +329,7 @@ pub fn build_program(genes: &[Gene]) -> Vec<El> {
         program.extend(add.clone());
         model.program = program.clone();
         model.pc = start;
+        model.open_branch_ends.clear();
         let mut stop = false;
         let mut guard = 0;
         while !model.done() && guard < 200 {
@@ -521,7 +525,7 @@ impl Property for C14 {
         vec![
             "every modelled opcode x every stack of depth 0..=arity+1 over the 18-value alphabet (4 values when arity >= 4)".into(),
             "nullary/unary opcodes x 0..=2 alt-stack items".into(),
-            "IF/NOTIF x 11 branch shapes (incl. a second OP_ELSE at this level or inside a nested conditional of the taken / the skipped branch, a stray OP_ELSE before and a stray OP_ENDIF after the conditional) x 18 condition values x {0,1} items below".into(),
+            "IF/NOTIF x 13 branch shapes (incl. an OP_RETURN in either branch followed by a stray OP_ENDIF, a second OP_ELSE at this level or inside a nested conditional of the taken / the skipped branch, a stray OP_ELSE before and a stray OP_ENDIF after the conditional) x 18 condition values x {0,1} items below".into(),
             "every unary numeric opcode on +/-(2^e + d), e in {0,7,8,15,16,23,24,31,32,39,63,64,127}, d in -2..=2, minimal and padded; every binary numeric opcode on pairs over e in {7,8,15,16,23,24,31,32,63,64}, d in -1..=1".into(),
             "PICK / ROLL / SPLIT / NUM2BIN / LSHIFT / RSHIFT x stacks of 1..4 items x 30 operand values from -2^64 to 2^100 x 0, 1, 2, 4 and 9 bytes of padding (operands of up to 22 bytes)".into(),
             "OP_SIZE / OP_DEPTH / byte-string opcodes on items of 127..65536 bytes (OP_SIZE also 8 MiB -/+ 1) and above 126..257 items".into(),
@@ -632,7 +636,7 @@ impl Property for C14 {
             }
         }
         for code in [99u8, 100] {
-            for shape in 0..11u8 {
+            for shape in 0..13u8 {
                 for cond in 0..ALPHABET.len() as u8 {
                     for below in [vec![], vec![5u8]] {
                         idx += 1;
